@@ -557,6 +557,16 @@ def direct_cases(ctx, n):
         out.append(Direct("casemod", s, '"${a[@]^^}"'))
     out.append(Direct("keys", "a=([3]=x [7]=y)", '"${!a[@]}"'))
     out.append(Direct("sparse-slice", "a=([3]=x [7]=y [9]=z)", '"${a[@]:4:2}"'))
+    # sparse indexed arrays: the offset names an index (negative: from the highest index + 1), the length counts elements
+    for setup in ("a=([3]=x [7]=y [9]=z)", "a=([0]=p [5]=q)", "a=(p q r); unset 'a[1]'"):
+        for off in range(-12, 13):
+            for ln in (None, 0, 1, 2, 5, -1):
+                for at in ("@", "*"):
+                    out.append(Direct("sparse-slice", setup, '"${a[%s]:%s%s}"' % (at, (" %d" % off) if off < 0 else off,
+                                                                                   "" if ln is None else ":%d" % ln)))
+    for _ in range(ctx.size(300, 3000)):
+        v = "".join(rng.choice(["a", "b", " ", "\n", "é", "A", "\t"]) for _ in range(rng.randint(0, 6)))
+        out.append(Direct("transform-u", "v=" + sq(v), '"${v@u}"'))
     out.append(Direct("keys", "declare -A A=([k]=v)", '"${!A[@]}"'))
     out.append(Direct("prefix-names", "zzq1=1; zzq2=2", '"${!zzq@}"'))
     out.append(Direct("prefix-names", "zzq1=1; zzq2=2", '"${!zzq*}"'))
